@@ -4,92 +4,459 @@ open Emitter
 
 /-- the (add, remove) times of a key -/
 def tget (m : Map) (k : Bytes) : Int × Int := ((get m k).add, (get m k).del)
-
 def tmax (a b : Int × Int) : Int × Int := (max a.1 b.1, max a.2 b.2)
-
 /-- every stored time is ≥ 0 (true of every reachable local state, see `nonneg_*`) -/
 def NonNeg (m : Map) : Prop := ∀ k, 0 ≤ (get m k).add ∧ 0 ≤ (get m k).del
-
 /-- no key occurs twice (a Go map) -/
 def NoDup (m : Map) : Prop := (m.map Prod.fst).Nodup
-
 /-- equal add/remove times on every key -/
 def Equiv (a b : Map) : Prop := ∀ k, tget a k = tget b k
 
+theorem lookup_cons_eq (m : Map) (k k' : Bytes) (v : Val) :
+    List.lookup k' ((k, v) :: m) = if k' = k then some v else List.lookup k' m := by
+  rw [List.lookup_cons]
+  by_cases h : k' = k
+  · simp [h]
+  · have : (k' == k) = false := by simpa using h
+    simp [h, this]
+
+theorem lookup_filter_ne (m : Map) (k k' : Bytes) :
+    List.lookup k' (m.filter (fun e => e.1 != k)) = if k' = k then none else List.lookup k' m := by
+  induction m with
+  | nil => simp
+  | cons e m ih =>
+    obtain ⟨a, b⟩ := e
+    by_cases ha : a = k
+    · subst ha
+      rw [List.filter_cons_of_neg (by simp), ih, lookup_cons_eq]
+      by_cases h : k' = a <;> simp [h]
+    · rw [List.filter_cons_of_pos (by simpa using ha), lookup_cons_eq, lookup_cons_eq, ih]
+      by_cases h : k' = a
+      · subst h; simp [ha]
+      · simp [h]
+
+theorem lookup_set (m : Map) (k k' : Bytes) (v : Val) :
+    List.lookup k' (set m k v) = if k' = k then some v else List.lookup k' m := by
+  unfold set
+  rw [lookup_cons_eq, lookup_filter_ne]
+  by_cases h : k' = k <;> simp [h]
+
 theorem get_set (m : Map) (k k' : Bytes) (v : Val) :
     get (set m k v) k' = if k' = k then v else get m k' := by
-  sorry
+  unfold get
+  rw [lookup_set]
+  by_cases h : k' = k <;> simp [h]
+
+theorem nodup_filter (m : Map) (p : Bytes × Val → Bool) (h : NoDup m) : NoDup (m.filter p) :=
+  List.Sublist.nodup (List.Sublist.map _ List.filter_sublist) h
 
 theorem nodup_set (m : Map) (k : Bytes) (v : Val) (h : NoDup m) : NoDup (set m k v) := by
-  sorry
+  unfold set NoDup
+  rw [List.map_cons, List.nodup_cons]
+  refine ⟨?_, nodup_filter m _ h⟩
+  simp [List.mem_map, List.mem_filter]
+
+/-- what is left of an incoming entry `rt` against the stored `st` -/
+def mDelta (st rt : Val) : Val :=
+  ⟨if st.add < rt.add then rt.add else 0, if st.del < rt.del then rt.del else 0, rt.payload⟩
+/-- the stored entry after merging `rt` -/
+def mNew (st rt : Val) : Val :=
+  ⟨if st.add < rt.add then rt.add else st.add, if st.del < rt.del then rt.del else st.del, rt.payload⟩
+
+theorem mergeOne_def (s : Map) (k : Bytes) (rt : Val) :
+    mergeOne s k rt = if (mDelta (get s k) rt).isZero = true then (s, none)
+      else (set s k (mNew (get s k) rt), some (mDelta (get s k) rt)) := by
+  unfold mergeOne mDelta mNew
+  simp only [decide_eq_true_eq]
+
+theorem isZero_mDelta (st rt : Val) :
+    (mDelta st rt).isZero = true ↔ (st.add < rt.add → rt.add = 0) ∧ (st.del < rt.del → rt.del = 0) := by
+  unfold mDelta Val.isZero
+  simp only [Bool.and_eq_true, beq_iff_eq]
+  constructor
+  · rintro ⟨h1, h2⟩
+    constructor
+    · intro h; rw [if_pos h] at h1; exact h1
+    · intro h; rw [if_pos h] at h2; exact h2
+  · rintro ⟨h1, h2⟩
+    constructor
+    · split
+      · exact h1 ‹_›
+      · rfl
+    · split
+      · exact h2 ‹_›
+      · rfl
+
+theorem get_mergeOne_ne (s : Map) (k : Bytes) (rt : Val) (k' : Bytes) (h : k' ≠ k) :
+    get (mergeOne s k rt).1 k' = get s k' := by
+  rw [mergeOne_def]
+  split
+  · rfl
+  · simp only [get_set, h, if_false]
 
 /-- one merged entry: pointwise maximum on that key, nothing else touched -/
 theorem tget_mergeOne (s : Map) (k : Bytes) (rt : Val) (k' : Bytes) (hs : NonNeg s) :
     tget (mergeOne s k rt).1 k' = if k' = k then tmax (tget s k) (rt.add, rt.del) else tget s k' := by
-  sorry
+  by_cases h : k' = k
+  · subst h
+    have := hs k'
+    simp only [if_true]
+    rw [mergeOne_def]
+    split
+    · rename_i hz
+      rw [isZero_mDelta] at hz
+      unfold tget tmax
+      simp only [Prod.mk.injEq]
+      omega
+    · unfold tget tmax mNew
+      simp only [get_set, if_true, Prod.mk.injEq]
+      constructor
+      · split <;> omega
+      · split <;> omega
+  · simp only [h, if_false]
+    unfold tget
+    rw [get_mergeOne_ne s k rt k' h]
+
+theorem merge_nil (s : Map) : merge s [] = (s, []) := rfl
+
+theorem merge_cons (s : Map) (k : Bytes) (rt : Val) (rest : Map) :
+    merge s ((k, rt) :: rest) =
+      ((merge (mergeOne s k rt).1 rest).1,
+        match (mergeOne s k rt).2 with
+        | some v => (k, v) :: (merge (mergeOne s k rt).1 rest).2
+        | none => (merge (mergeOne s k rt).1 rest).2) := rfl
+
+theorem get_nil (k : Bytes) : get [] k = Val.zero := rfl
+theorem tget_nil (k : Bytes) : tget [] k = (0, 0) := rfl
+
+theorem get_cons (m : Map) (k k' : Bytes) (v : Val) :
+    get ((k, v) :: m) k' = if k' = k then v else get m k' := by
+  unfold get
+  rw [lookup_cons_eq]
+  by_cases h : k' = k <;> simp [h]
+
+theorem lookup_of_not_mem (m : Map) (k : Bytes) (h : k ∉ m.map Prod.fst) : List.lookup k m = none := by
+  induction m with
+  | nil => rfl
+  | cons e m ih =>
+    obtain ⟨a, b⟩ := e
+    simp only [List.map_cons, List.mem_cons, not_or] at h
+    rw [lookup_cons_eq, if_neg h.1, ih h.2]
+
+theorem get_of_not_mem (m : Map) (k : Bytes) (h : k ∉ m.map Prod.fst) : get m k = Val.zero := by
+  unfold get; rw [lookup_of_not_mem m k h]; rfl
+
+theorem nonneg_nil : NonNeg [] := by
+  intro k; rw [get_nil]; simp [Val.zero]
+
+theorem nodup_nil : NoDup [] := List.nodup_nil
+
+theorem tmax_zero_right (a : Int × Int) (h : 0 ≤ a.1 ∧ 0 ≤ a.2) : tmax a (0, 0) = a := by
+  obtain ⟨x, y⟩ := a
+  unfold tmax
+  simp only [Prod.mk.injEq] at *
+  omega
+
+theorem tmax_zero_left (a : Int × Int) (h : 0 ≤ a.1 ∧ 0 ≤ a.2) : tmax (0, 0) a = a := by
+  obtain ⟨x, y⟩ := a
+  unfold tmax
+  simp only [Prod.mk.injEq] at *
+  omega
+
+theorem tmax_comm (a b : Int × Int) : tmax a b = tmax b a := by
+  unfold tmax; simp only [Prod.mk.injEq]; omega
+
+theorem tmax_assoc (a b c : Int × Int) : tmax (tmax a b) c = tmax a (tmax b c) := by
+  unfold tmax; simp only [Prod.mk.injEq]; omega
+
+theorem tmax_self (a : Int × Int) : tmax a a = a := by
+  unfold tmax; simp only [Int.max_self]
+
+theorem nonneg_tget (s : Map) (hs : NonNeg s) (k : Bytes) : 0 ≤ (tget s k).1 ∧ 0 ≤ (tget s k).2 := hs k
+
+theorem nonneg_mergeOne (s : Map) (k : Bytes) (rt : Val) (hs : NonNeg s) : NonNeg (mergeOne s k rt).1 := by
+  intro k'
+  have h := tget_mergeOne s k rt k' hs
+  have h1 := hs k
+  have h2 := hs k'
+  unfold tget tmax at h
+  split at h <;> simp only [Prod.mk.injEq] at h <;> omega
+
+theorem nodup_mergeOne (s : Map) (k : Bytes) (rt : Val) (hs : NoDup s) : NoDup (mergeOne s k rt).1 := by
+  rw [mergeOne_def]
+  split
+  · exact hs
+  · exact nodup_set _ _ _ hs
 
 /-- `Merge`: pointwise maximum of add and remove times, for every key — absent keys, ties,
 zero and negative incoming times included -/
 theorem tget_merge (s r : Map) (hs : NonNeg s) (hr : NoDup r) (k : Bytes) :
     tget (merge s r).1 k = tmax (tget s k) (tget r k) := by
-  sorry
+  induction r generalizing s with
+  | nil => rw [merge_nil, tget_nil, tmax_zero_right _ (hs k)]
+  | cons e rest ih =>
+    obtain ⟨k0, rt⟩ := e
+    unfold NoDup at hr
+    rw [List.map_cons, List.nodup_cons] at hr
+    rw [merge_cons]
+    simp only
+    rw [ih _ (nonneg_mergeOne s k0 rt hs) hr.2, tget_mergeOne _ _ _ _ hs]
+    by_cases h : k = k0
+    · subst h
+      have : tget rest k = (0, 0) := by unfold tget; rw [get_of_not_mem _ _ hr.1]; rfl
+      rw [this, if_pos rfl]
+      have : tget ((k, rt) :: rest) k = (rt.add, rt.del) := by unfold tget; rw [get_cons, if_pos rfl]
+      rw [this]
+      have h1 := hs k
+      unfold tmax tget
+      simp only [Prod.mk.injEq]
+      omega
+    · rw [if_neg h]
+      have : tget ((k0, rt) :: rest) k = tget rest k := by unfold tget; rw [get_cons, if_neg h]
+      rw [this]
 
 theorem nonneg_merge (s r : Map) (hs : NonNeg s) : NonNeg (merge s r).1 := by
-  sorry
-theorem nonneg_add (s : Map) (k : Bytes) (now : Int) (p : Bytes) (hs : NonNeg s) : NonNeg (add s k now p) := by
-  sorry
-theorem nonneg_del (s : Map) (k : Bytes) (now : Int) (hs : NonNeg s) : NonNeg (del s k now) := by
-  sorry
+  induction r generalizing s with
+  | nil => exact hs
+  | cons e rest ih =>
+    obtain ⟨k0, rt⟩ := e
+    rw [merge_cons]
+    exact ih _ (nonneg_mergeOne s k0 rt hs)
+
 theorem nodup_merge (s r : Map) (hs : NoDup s) : NoDup (merge s r).1 := by
-  sorry
+  induction r generalizing s with
+  | nil => exact hs
+  | cons e rest ih =>
+    obtain ⟨k0, rt⟩ := e
+    rw [merge_cons]
+    exact ih _ (nodup_mergeOne s k0 rt hs)
+
+theorem nonneg_add (s : Map) (k : Bytes) (now : Int) (p : Bytes) (hs : NonNeg s) : NonNeg (add s k now p) := by
+  unfold add
+  simp only
+  split
+  · intro k'
+    rw [get_set]
+    have h1 := hs k
+    have h2 := hs k'
+    split
+    · simp only; omega
+    · exact h2
+  · exact hs
+theorem nonneg_del (s : Map) (k : Bytes) (now : Int) (hs : NonNeg s) : NonNeg (del s k now) := by
+  unfold del
+  simp only
+  split
+  · intro k'
+    rw [get_set]
+    have h1 := hs k
+    have h2 := hs k'
+    split
+    · simp only; omega
+    · exact h2
+  · exact hs
 theorem nodup_add (s : Map) (k : Bytes) (now : Int) (p : Bytes) (hs : NoDup s) : NoDup (add s k now p) := by
-  sorry
+  unfold add
+  simp only
+  split
+  · exact nodup_set _ _ _ hs
+  · exact hs
 theorem nodup_del (s : Map) (k : Bytes) (now : Int) (hs : NoDup s) : NoDup (del s k now) := by
-  sorry
+  unfold del
+  simp only
+  split
+  · exact nodup_set _ _ _ hs
+  · exact hs
+
+theorem nodup_singleton (k : Bytes) (v : Val) : NoDup [(k, v)] := by
+  unfold NoDup; simp
+
+theorem merge_singleton (s : Map) (k : Bytes) (v : Val) : (merge s [(k, v)]).1 = (mergeOne s k v).1 := rfl
 
 /-- a local `Add` / `Del` is, on the times, the merge of a one-entry update -/
 theorem add_as_merge (s : Map) (k : Bytes) (now : Int) (p : Bytes) (hs : NonNeg s) :
     Equiv (add s k now p) (merge s [(k, ⟨now, 0, p⟩)]).1 := by
-  sorry
+  intro k'
+  rw [merge_singleton, tget_mergeOne _ _ _ _ hs]
+  have h1 := hs k
+  unfold add
+  simp only
+  by_cases h : k' = k
+  · subst h
+    rw [if_pos rfl]
+    split
+    · unfold tget tmax; simp only [get_set, if_true, Prod.mk.injEq]; omega
+    · unfold tget tmax; simp only [Prod.mk.injEq]; omega
+  · rw [if_neg h]
+    split
+    · unfold tget; simp only [get_set, if_neg h]
+    · rfl
 theorem del_as_merge (s : Map) (k : Bytes) (now : Int) (hs : NonNeg s) :
     Equiv (del s k now) (merge s [(k, ⟨0, now, []⟩)]).1 := by
-  sorry
+  intro k'
+  rw [merge_singleton, tget_mergeOne _ _ _ _ hs]
+  have h1 := hs k
+  unfold del
+  simp only
+  by_cases h : k' = k
+  · subst h
+    rw [if_pos rfl]
+    split
+    · unfold tget tmax; simp only [get_set, if_true, Prod.mk.injEq]; omega
+    · unfold tget tmax; simp only [Prod.mk.injEq]; omega
+  · rw [if_neg h]
+    split
+    · unfold tget; simp only [get_set, if_neg h]
+    · rfl
 
 /-! ### semilattice laws (on the times) -/
 
 theorem merge_idem (s : Map) (hs : NonNeg s) (hd : NoDup s) : Equiv (merge s s).1 s := by
-  sorry
+  intro k; rw [tget_merge s s hs hd, tmax_self]
 
 theorem merge_comm (a b : Map) (ha : NonNeg a) (hb : NonNeg b) (da : NoDup a) (db : NoDup b) :
     Equiv (merge a b).1 (merge b a).1 := by
-  sorry
+  intro k; rw [tget_merge a b ha db, tget_merge b a hb da, tmax_comm]
 
 theorem merge_assoc (a b c : Map) (ha : NonNeg a) (hb : NonNeg b) (da : NoDup a) (db : NoDup b) (dc : NoDup c) :
     Equiv (merge (merge a b).1 c).1 (merge a (merge b c).1).1 := by
-  sorry
+  have _ := da  -- not needed
+  intro k
+  rw [tget_merge _ c (nonneg_merge a b ha) dc, tget_merge a b ha db,
+    tget_merge a _ ha (nodup_merge b c db), tget_merge b c hb dc, tmax_assoc]
 
 /-! ### convergence -/
 
 /-- deliver a sequence of updates (single operations, deltas, snapshots) to a replica -/
 def deliver (s : Map) (ds : List Map) : Map := ds.foldl (fun s u => (merge s u).1) s
-
 /-- the join of a collection of updates on key `k` -/
 def joinT (ds : List Map) (k : Bytes) : Int × Int := ds.foldl (fun acc u => tmax acc (tget u k)) (0, 0)
 
+/-- the fold behind `joinT` from an arbitrary start -/
+def joinFrom (acc : Int × Int) (ds : List Map) (k : Bytes) : Int × Int :=
+  ds.foldl (fun acc u => tmax acc (tget u k)) acc
+
+theorem joinT_eq (ds : List Map) (k : Bytes) : joinT ds k = joinFrom (0, 0) ds k := rfl
+
+theorem joinFrom_nil (acc : Int × Int) (k : Bytes) : joinFrom acc [] k = acc := rfl
+theorem joinFrom_cons (acc : Int × Int) (u : Map) (ds : List Map) (k : Bytes) :
+    joinFrom acc (u :: ds) k = joinFrom (tmax acc (tget u k)) ds k := rfl
+
+theorem joinFrom_fst_le_iff (acc : Int × Int) (ds : List Map) (k : Bytes) (B : Int) :
+    (joinFrom acc ds k).1 ≤ B ↔ acc.1 ≤ B ∧ ∀ u ∈ ds, (tget u k).1 ≤ B := by
+  induction ds generalizing acc with
+  | nil => simp [joinFrom_nil]
+  | cons u ds ih =>
+    rw [joinFrom_cons, ih]
+    simp only [List.mem_cons, forall_eq_or_imp]
+    unfold tmax
+    simp only
+    constructor
+    · rintro ⟨h1, h2⟩; exact ⟨by omega, by omega, h2⟩
+    · rintro ⟨h1, h2, h3⟩; exact ⟨by omega, h3⟩
+
+theorem joinFrom_snd_le_iff (acc : Int × Int) (ds : List Map) (k : Bytes) (B : Int) :
+    (joinFrom acc ds k).2 ≤ B ↔ acc.2 ≤ B ∧ ∀ u ∈ ds, (tget u k).2 ≤ B := by
+  induction ds generalizing acc with
+  | nil => simp [joinFrom_nil]
+  | cons u ds ih =>
+    rw [joinFrom_cons, ih]
+    simp only [List.mem_cons, forall_eq_or_imp]
+    unfold tmax
+    simp only
+    constructor
+    · rintro ⟨h1, h2⟩; exact ⟨by omega, by omega, h2⟩
+    · rintro ⟨h1, h2, h3⟩; exact ⟨by omega, h3⟩
+
+/-- `joinFrom` is the least upper bound of its start and the updates, so it is `tmax` of the
+start and the join from `(0, 0)` whenever the start is non-negative -/
+theorem joinFrom_eq (acc : Int × Int) (ds : List Map) (k : Bytes) (h : 0 ≤ acc.1 ∧ 0 ≤ acc.2) :
+    joinFrom acc ds k = tmax acc (joinT ds k) := by
+  rw [joinT_eq]
+  have a1 := joinFrom_fst_le_iff acc ds k
+  have a2 := joinFrom_snd_le_iff acc ds k
+  have z1 := joinFrom_fst_le_iff (0, 0) ds k
+  have z2 := joinFrom_snd_le_iff (0, 0) ds k
+  apply Prod.ext
+  · apply Int.le_antisymm
+    · rw [a1]
+      have := (z1 (joinFrom (0, 0) ds k).1).1 (Int.le_refl _)
+      refine ⟨?_, fun u hu => ?_⟩
+      · unfold tmax; simp only; omega
+      · have := this.2 u hu; unfold tmax; simp only; omega
+    · have := (a1 (joinFrom acc ds k).1).1 (Int.le_refl _)
+      have hz := (z1 (joinFrom acc ds k).1).2 ⟨by simp only; omega, this.2⟩
+      unfold tmax; simp only; omega
+  · apply Int.le_antisymm
+    · rw [a2]
+      have := (z2 (joinFrom (0, 0) ds k).2).1 (Int.le_refl _)
+      refine ⟨?_, fun u hu => ?_⟩
+      · unfold tmax; simp only; omega
+      · have := this.2 u hu; unfold tmax; simp only; omega
+    · have := (a2 (joinFrom acc ds k).2).1 (Int.le_refl _)
+      have hz := (z2 (joinFrom acc ds k).2).2 ⟨by simp only; omega, this.2⟩
+      unfold tmax; simp only; omega
+
+theorem joinT_nonneg (ds : List Map) (k : Bytes) : 0 ≤ (joinT ds k).1 ∧ 0 ≤ (joinT ds k).2 := by
+  rw [joinT_eq]
+  have h1 := (joinFrom_fst_le_iff (0, 0) ds k (joinFrom (0, 0) ds k).1).1 (Int.le_refl _)
+  have h2 := (joinFrom_snd_le_iff (0, 0) ds k (joinFrom (0, 0) ds k).2).1 (Int.le_refl _)
+  exact ⟨h1.1, h2.1⟩
+
+theorem joinT_nil (k : Bytes) : joinT [] k = (0, 0) := rfl
+
+theorem joinT_append (a b : List Map) (k : Bytes) : joinT (a ++ b) k = tmax (joinT a k) (joinT b k) := by
+  have : joinT (a ++ b) k = joinFrom (joinT a k) b k := by
+    unfold joinT joinFrom; rw [List.foldl_append]
+  rw [this, joinFrom_eq _ _ _ (joinT_nonneg a k)]
+
+theorem joinT_singleton (u : Map) (k : Bytes) : joinT [u] k = tmax (0, 0) (tget u k) := rfl
+
+/-- the join depends only on the set of updates -/
+theorem joinT_mono (ds₁ ds₂ : List Map) (h : ∀ u, u ∈ ds₁ → u ∈ ds₂) (k : Bytes) :
+    (joinT ds₁ k).1 ≤ (joinT ds₂ k).1 ∧ (joinT ds₁ k).2 ≤ (joinT ds₂ k).2 := by
+  simp only [joinT_eq]
+  have h1 := (joinFrom_fst_le_iff (0, 0) ds₂ k (joinFrom (0, 0) ds₂ k).1).1 (Int.le_refl _)
+  have h2 := (joinFrom_snd_le_iff (0, 0) ds₂ k (joinFrom (0, 0) ds₂ k).2).1 (Int.le_refl _)
+  constructor
+  · rw [joinFrom_fst_le_iff]; exact ⟨h1.1, fun u hu => h1.2 u (h u hu)⟩
+  · rw [joinFrom_snd_le_iff]; exact ⟨h2.1, fun u hu => h2.2 u (h u hu)⟩
+
+theorem joinT_congr (ds₁ ds₂ : List Map) (h : ∀ u, u ∈ ds₁ ↔ u ∈ ds₂) (k : Bytes) :
+    joinT ds₁ k = joinT ds₂ k := by
+  have a := joinT_mono ds₁ ds₂ (fun u => (h u).1) k
+  have b := joinT_mono ds₂ ds₁ (fun u => (h u).2) k
+  apply Prod.ext <;> omega
+
+theorem deliver_nil (s : Map) : deliver s [] = s := rfl
+theorem deliver_cons (s u : Map) (ds : List Map) : deliver s (u :: ds) = deliver (merge s u).1 ds := rfl
+
 theorem deliver_eq_join (s : Map) (ds : List Map) (hs : NonNeg s) (h : ∀ u ∈ ds, NoDup u) (k : Bytes) :
     tget (deliver s ds) k = tmax (tget s k) (joinT ds k) := by
-  sorry
+  rw [← joinFrom_eq _ _ _ (hs k)]
+  induction ds generalizing s with
+  | nil => rfl
+  | cons u ds ih =>
+    rw [deliver_cons, joinFrom_cons, ih _ (nonneg_merge s u hs) (fun v hv => h v (List.mem_cons_of_mem _ hv)),
+      tget_merge s u hs (h u List.mem_cons_self)]
 
 /-- Any two replicas that have received the same set of updates — in any order, any number
 of times — hold the same add and remove times for every key. -/
 theorem converge (ds₁ ds₂ : List Map) (h₁ : ∀ u ∈ ds₁, NoDup u) (h₂ : ∀ u ∈ ds₂, NoDup u)
     (hset : ∀ u, u ∈ ds₁ ↔ u ∈ ds₂) : Equiv (deliver [] ds₁) (deliver [] ds₂) := by
-  sorry
+  intro k
+  rw [deliver_eq_join [] ds₁ nonneg_nil h₁, deliver_eq_join [] ds₂ nonneg_nil h₂, joinT_congr ds₁ ds₂ hset]
+
+theorem has_congr (a b : Map) (k : Bytes) (h : tget a k = tget b k) : has a k = has b k := by
+  unfold tget at h
+  simp only [Prod.mk.injEq] at h
+  unfold has Val.isAdded
+  rw [h.1, h.2]
 
 /-- hence the same answer to "is this event active" -/
 theorem converge_has (ds₁ ds₂ : List Map) (h₁ : ∀ u ∈ ds₁, NoDup u) (h₂ : ∀ u ∈ ds₂, NoDup u)
-    (hset : ∀ u, u ∈ ds₁ ↔ u ∈ ds₂) (k : Bytes) : has (deliver [] ds₁) k = has (deliver [] ds₂) k := by
-  sorry
+    (hset : ∀ u, u ∈ ds₁ ↔ u ∈ ds₂) (k : Bytes) : has (deliver [] ds₁) k = has (deliver [] ds₂) k :=
+  has_congr _ _ k (converge ds₁ ds₂ h₁ h₂ hset k)
 
 /-! ### replicas exchanging state under an arbitrary schedule -/
 
@@ -119,10 +486,59 @@ its times are non-negative and its keys distinct -/
 def Net.Inv (n : Net) : Prop :=
   ∀ p ∈ n.reps, NonNeg p.1 ∧ NoDup p.1 ∧ ∀ k, tget p.1 k = joinT p.2 k
 
+theorem net_inv_init (k : Nat) : (Net.init k).Inv := by
+  intro p hp
+  unfold Net.init at hp
+  rw [List.mem_replicate] at hp
+  rw [hp.2]
+  exact ⟨nonneg_nil, nodup_nil, fun _ => rfl⟩
+
+/-- absorbing a batch of updates `us` whose join is the (non-negative part of the) times of
+`m` keeps the invariant -/
+theorem net_inv_absorb (p : Map × List Map) (m : Map) (us : List Map)
+    (hp : NonNeg p.1 ∧ NoDup p.1 ∧ ∀ k, tget p.1 k = joinT p.2 k)
+    (hm : NoDup m) (hj : ∀ k, tmax (0, 0) (tget m k) = joinT us k) :
+    NonNeg (merge p.1 m).1 ∧ NoDup (merge p.1 m).1 ∧ ∀ k, tget (merge p.1 m).1 k = joinT (p.2 ++ us) k := by
+  refine ⟨nonneg_merge _ _ hp.1, nodup_merge _ _ hp.2.1, fun k => ?_⟩
+  rw [tget_merge _ _ hp.1 hm, joinT_append, ← hp.2.2 k, ← hj k, ← tmax_assoc, tmax_zero_right _ (hp.1 k)]
+
+theorem net_inv_step (n : Net) (e : NetEv) (hn : n.Inv)
+    (hu : ∀ r u, e = NetEv.localUpd r u → NoDup u) : (n.step e).Inv := by
+  cases e with
+  | localUpd r u =>
+    intro p hp
+    simp only [Net.step, List.mem_mapIdx] at hp
+    obtain ⟨i, hi, rfl⟩ := hp
+    have hq := hn _ (List.getElem_mem hi)
+    split
+    · exact net_inv_absorb _ u [u] hq (hu r u rfl) (fun k => rfl)
+    · exact hq
+  | sync dst src =>
+    simp only [Net.step]
+    cases hps : n.reps[src]? with
+    | none => exact hn
+    | some ps =>
+      have hs := hn ps (List.mem_of_getElem? hps)
+      intro p hp
+      simp only [List.mem_mapIdx] at hp
+      obtain ⟨i, hi, rfl⟩ := hp
+      have hq := hn _ (List.getElem_mem hi)
+      split
+      · exact net_inv_absorb _ ps.1 ps.2 hq hs.2.1 (fun k => by rw [← hs.2.2 k, tmax_zero_left _ (hs.1 k)])
+      · exact hq
+
+theorem net_inv_foldl (n : Net) (evs : List NetEv) (hn : n.Inv)
+    (hu : ∀ e ∈ evs, ∀ r u, e = NetEv.localUpd r u → NoDup u) : (evs.foldl Net.step n).Inv := by
+  induction evs generalizing n with
+  | nil => exact hn
+  | cons e evs ih =>
+    rw [List.foldl_cons]
+    exact ih _ (net_inv_step n e hn (hu e List.mem_cons_self)) (fun e' he' => hu e' (List.mem_cons_of_mem _ he'))
+
 theorem net_inv (k : Nat) (evs : List NetEv)
     (hu : ∀ e ∈ evs, ∀ r u, e = NetEv.localUpd r u → NoDup u) :
-    (evs.foldl Net.step (Net.init k)).Inv := by
-  sorry
+    (evs.foldl Net.step (Net.init k)).Inv :=
+  net_inv_foldl _ evs (net_inv_init k) hu
 
 /-- for every schedule: two replicas that have (directly or transitively) absorbed the same
 set of updates agree on every key -/
@@ -131,83 +547,343 @@ theorem net_converge (k : Nat) (evs : List NetEv)
     (a b : Map × List Map) (ha : a ∈ (evs.foldl Net.step (Net.init k)).reps)
     (hb : b ∈ (evs.foldl Net.step (Net.init k)).reps) (hsame : ∀ u, u ∈ a.2 ↔ u ∈ b.2) :
     Equiv a.1 b.1 := by
-  sorry
+  intro key
+  have hi := net_inv k evs hu
+  rw [(hi a ha).2.2 key, (hi b hb).2.2 key, joinT_congr _ _ hsame]
 
 /-! ### deltas (C13, first sentence) -/
+
+theorem mergeOne_snd (s : Map) (k : Bytes) (rt : Val) :
+    (mergeOne s k rt).2 = if (mDelta (get s k) rt).isZero = true then none else some (mDelta (get s k) rt) := by
+  rw [mergeOne_def]; split <;> rfl
+
+/-- the delta entry of a key: what `mergeOne` leaves of the incoming entry for that key -/
+theorem lookup_delta (s r : Map) (hr : NoDup r) (k : Bytes) :
+    List.lookup k (merge s r).2 = (List.lookup k r).bind (fun rt => (mergeOne s k rt).2) := by
+  induction r generalizing s with
+  | nil => rfl
+  | cons e rest ih =>
+    obtain ⟨k0, rt⟩ := e
+    unfold NoDup at hr
+    rw [List.map_cons, List.nodup_cons] at hr
+    rw [merge_cons, lookup_cons_eq]
+    simp only
+    by_cases h : k = k0
+    · subst h
+      rw [if_pos rfl, Option.bind_some]
+      cases hd : (mergeOne s k rt).2 with
+      | some v => simp only; rw [lookup_cons_eq, if_pos rfl]
+      | none => simp only; rw [ih _ hr.2, lookup_of_not_mem _ _ hr.1]; rfl
+    · rw [if_neg h]
+      have hk : List.lookup k (merge (mergeOne s k0 rt).1 rest).2
+          = (List.lookup k rest).bind (fun rt' => (mergeOne s k rt').2) := by
+        rw [ih _ hr.2]
+        congr 1
+        funext rt'
+        rw [mergeOne_snd, mergeOne_snd, get_mergeOne_ne s k0 rt k h]
+      cases hd : (mergeOne s k0 rt).2 with
+      | some v => simp only; rw [lookup_cons_eq, if_neg h, hk]
+      | none => simp only; rw [hk]
+
+theorem get_delta (s r : Map) (hr : NoDup r) (k : Bytes) :
+    get (merge s r).2 k = if (mDelta (get s k) (get r k)).isZero = true then Val.zero else mDelta (get s k) (get r k) := by
+  unfold get
+  rw [lookup_delta s r hr k]
+  cases List.lookup k r with
+  | none =>
+    have : (mDelta (get s k) Val.zero).isZero = true := by
+      rw [isZero_mDelta]; simp [Val.zero]
+    simp only [Option.bind_none, Option.getD_none]
+    unfold get at this
+    rw [if_pos this]
+  | some rt =>
+    simp only [Option.bind_some, Option.getD_some]
+    rw [mergeOne_snd]
+    unfold get
+    split <;> rfl
 
 /-- the delta holds, for each key, exactly the incoming times that were newer, else 0 -/
 theorem delta_times (s r : Map) (hs : NonNeg s) (hr : NoDup r) (k : Bytes) :
     tget (merge s r).2 k =
       (if (get s k).add < (get r k).add then (get r k).add else 0,
        if (get s k).del < (get r k).del then (get r k).del else 0) := by
-  sorry
+  have _ := hs  -- not needed: the formula holds for any `s`
+  unfold tget
+  rw [get_delta s r hr k]
+  split
+  · rename_i hz
+    rw [isZero_mDelta] at hz
+    simp only [Val.zero, Prod.mk.injEq]
+    constructor
+    · split
+      · exact (hz.1 ‹_›).symm
+      · rfl
+    · split
+      · exact (hz.2 ‹_›).symm
+      · rfl
+  · rfl
+
+theorem exists_mem_iff_lookup (m : Map) (k : Bytes) : (∃ v, (k, v) ∈ m) ↔ List.lookup k m ≠ none := by
+  induction m with
+  | nil => simp
+  | cons e m ih =>
+    obtain ⟨a, b⟩ := e
+    rw [lookup_cons_eq]
+    by_cases h : k = a
+    · subst h
+      simp only [if_true, ne_eq, reduceCtorEq, not_false_eq_true, iff_true]
+      exact ⟨b, List.mem_cons_self⟩
+    · rw [if_neg h, ← ih]
+      constructor
+      · rintro ⟨v, hv⟩
+        rw [List.mem_cons] at hv
+        rcases hv with hv | hv
+        · exact absurd (Prod.mk.inj hv).1 h
+        · exact ⟨v, hv⟩
+      · rintro ⟨v, hv⟩
+        exact ⟨v, List.mem_cons_of_mem _ hv⟩
 
 /-- a key is in the delta iff its times changed -/
 theorem delta_mem_iff (s r : Map) (hs : NonNeg s) (hr : NoDup r) (k : Bytes) :
     (∃ v, (k, v) ∈ (merge s r).2) ↔ tget (merge s r).1 k ≠ tget s k := by
-  sorry
+  rw [exists_mem_iff_lookup, lookup_delta s r hr k, tget_merge s r hs hr k]
+  have h1 := hs k
+  have hget : get r k = (List.lookup k r).getD Val.zero := rfl
+  unfold tget tmax
+  rw [hget]
+  cases List.lookup k r with
+  | none =>
+    simp only [Option.bind_none, Option.getD_none, Val.zero, ne_eq, not_true_eq_false, Prod.mk.injEq, false_iff,
+      Classical.not_not]
+    omega
+  | some rt =>
+    simp only [Option.bind_some, Option.getD_some, mergeOne_snd]
+    have hz := isZero_mDelta (get s k) rt
+    split
+    · rename_i h
+      rw [hz] at h
+      simp only [ne_eq, not_true_eq_false, Prod.mk.injEq, false_iff, Classical.not_not]
+      omega
+    · rename_i h
+      rw [hz] at h
+      simp only [ne_eq, reduceCtorEq, not_false_eq_true, Prod.mk.injEq, true_iff]
+      omega
 
 /-- the delta is empty precisely when nothing changed -/
 theorem delta_empty_iff (s r : Map) (hs : NonNeg s) (hr : NoDup r) :
     (merge s r).2 = [] ↔ Equiv (merge s r).1 s := by
-  sorry
+  constructor
+  · intro h k
+    apply Classical.byContradiction
+    intro hne
+    obtain ⟨v, hv⟩ := (delta_mem_iff s r hs hr k).2 hne
+    rw [h] at hv
+    exact absurd hv List.not_mem_nil
+  · intro h
+    rw [List.eq_nil_iff_forall_not_mem]
+    rintro ⟨k, v⟩ hm
+    exact (delta_mem_iff s r hs hr k).1 ⟨v, hm⟩ (h k)
 
-theorem delta_nodup (s r : Map) (hr : NoDup r) : NoDup (merge s r).2 := by
-  sorry
+theorem delta_keys_sublist (s r : Map) : ((merge s r).2.map Prod.fst).Sublist (r.map Prod.fst) := by
+  induction r generalizing s with
+  | nil => exact List.Sublist.refl _
+  | cons e rest ih =>
+    obtain ⟨k0, rt⟩ := e
+    rw [merge_cons]
+    simp only
+    cases (mergeOne s k0 rt).2 with
+    | some v => simp only [List.map_cons]; exact List.Sublist.cons_cons _ (ih _)
+    | none => simp only [List.map_cons]; exact List.Sublist.cons _ (ih _)
+
+theorem delta_nodup (s r : Map) (hr : NoDup r) : NoDup (merge s r).2 :=
+  List.Sublist.nodup (delta_keys_sublist s r) hr
 
 /-- relaying the delta instead of the payload loses nothing: for every third replica -/
 theorem relay_sufficient (s r t : Map) (hs : NonNeg s) (ht : NonNeg t) (hr : NoDup r) (k : Bytes) :
     tmax (tget s k) (tget (merge t (merge s r).2).1 k) = tmax (tget s k) (tget (merge t r).1 k) := by
-  sorry
+  rw [tget_merge t _ ht (delta_nodup s r hr), tget_merge t r ht hr, delta_times s r hs hr]
+  have h1 := hs k
+  have h2 := ht k
+  unfold tmax tget
+  simp only [Prod.mk.injEq]
+  constructor
+  · split <;> omega
+  · split <;> omega
 
 /-- re-gossiping stops: merging the same payload again yields an empty delta -/
 theorem regossip_stops (s r : Map) (hs : NonNeg s) (hr : NoDup r) :
     (merge (merge s r).1 r).2 = [] := by
-  sorry
+  rw [delta_empty_iff _ _ (nonneg_merge s r hs) hr]
+  intro k
+  rw [tget_merge _ r (nonneg_merge s r hs) hr, tget_merge s r hs hr, tmax_assoc, tmax_self]
 
 /-- `State.Merge` returns nil iff all three deltas are empty -/
 theorem state_merge_none_iff (s o : State) :
     (s.merge o).2 = none ↔ (merge s.sub o.sub).2 = [] ∧ (merge s.ban o.ban).2 = [] ∧ (merge s.conn o.conn).2 = [] := by
-  sorry
+  have : (s.merge o).2 = if (merge s.sub o.sub).2.length + (merge s.ban o.ban).2.length + (merge s.conn o.conn).2.length == 0
+      then none else some ⟨(merge s.sub o.sub).2, (merge s.ban o.ban).2, (merge s.conn o.conn).2⟩ := rfl
+  rw [this]
+  simp only [← List.length_eq_zero_iff]
+  split
+  · rename_i h
+    simp only [beq_iff_eq] at h
+    simp only [true_iff]; omega
+  · rename_i h
+    simp only [beq_iff_eq] at h
+    simp only [reduceCtorEq, false_iff]; omega
 
 /-! ### activity -/
 
 theorem isAdded_iff (v : Val) : v.isAdded = true ↔ v.add ≠ 0 ∧ v.add ≥ v.del := by
-  sorry
+  unfold Val.isAdded
+  simp only [Bool.and_eq_true, bne_iff_ne, ne_eq, decide_eq_true_eq]
 
 /-- after an add at a clock reading above every earlier time the entry is active … -/
 theorem has_after_add (s : Map) (k : Bytes) (now : Int) (p : Bytes)
     (h : (get s k).add < now ∧ (get s k).del ≤ now ∧ now ≠ 0) : has (add s k now p) k = true := by
-  sorry
+  unfold has add
+  simp only
+  rw [if_pos h.1, get_set, if_pos rfl, isAdded_iff]
+  exact ⟨h.2.2, h.2.1⟩
+
 /-- … and after a remove at a later reading it is not -/
 theorem not_has_after_del (s : Map) (k : Bytes) (now : Int) (h : (get s k).add < now) :
     has (del s k now) k = false := by
-  sorry
+  rw [← Bool.not_eq_true]
+  unfold has del
+  simp only
+  split
+  · rw [get_set, if_pos rfl, isAdded_iff]
+    simp only
+    omega
+  · rw [isAdded_iff]
+    omega
 
 /-! ### durable backend: read cache coherence and refinement of the plain map (C14) -/
 
 theorem coherent_init : ({} : Durable).coherent := by
-  sorry
+  intro k v h
+  exact absurd h (by simp)
+
 theorem coherent_store (d : Durable) (k : Bytes) (v : Val) (h : d.coherent) : (d.store k v).coherent := by
-  sorry
+  intro k' v' hc
+  unfold Durable.store at hc ⊢
+  simp only at hc ⊢
+  rw [lookup_filter_ne] at hc
+  rw [lookup_set]
+  by_cases hk : k' = k
+  · rw [if_pos hk] at hc; exact absurd hc (by simp)
+  · rw [if_neg hk] at hc; rw [if_neg hk]; exact h k' v' hc
+
+theorem fetch_cases (d : Durable) (k : Bytes) :
+    (∃ v, d.cache.lookup k = some v ∧ d.fetch k = (v, d)) ∨
+    (∃ v, d.cache.lookup k = none ∧ d.db.lookup k = some v ∧ d.fetch k = (v, { d with cache := (k, v) :: d.cache })) ∨
+    (d.cache.lookup k = none ∧ d.db.lookup k = none ∧ d.fetch k = (Val.zero, d)) := by
+  unfold Durable.fetch
+  cases h1 : d.cache.lookup k with
+  | some v => exact Or.inl ⟨v, rfl, rfl⟩
+  | none =>
+    cases h2 : d.db.lookup k with
+    | some v => exact Or.inr (Or.inl ⟨v, rfl, rfl, rfl⟩)
+    | none => exact Or.inr (Or.inr ⟨rfl, rfl, rfl⟩)
+
 theorem coherent_fetch (d : Durable) (k : Bytes) (h : d.coherent) : (d.fetch k).2.coherent := by
-  sorry
+  rcases fetch_cases d k with ⟨v, _, hf⟩ | ⟨v, _, hdb, hf⟩ | ⟨_, _, hf⟩
+  · rw [hf]; exact h
+  · rw [hf]
+    intro k' v' hc
+    simp only at hc ⊢
+    rw [lookup_cons_eq] at hc
+    by_cases hk : k' = k
+    · rw [if_pos hk] at hc; rw [hk, hdb]; exact hc
+    · rw [if_neg hk] at hc; exact h k' v' hc
+  · rw [hf]; exact h
+
 theorem coherent_add (d : Durable) (k : Bytes) (now : Int) (p : Bytes) (h : d.coherent) : (d.add k now p).coherent := by
-  sorry
+  unfold Durable.add
+  simp only
+  split
+  · exact coherent_store _ _ _ h
+  · exact h
 theorem coherent_del (d : Durable) (k : Bytes) (now : Int) (h : d.coherent) : (d.del k now).coherent := by
-  sorry
+  unfold Durable.del
+  simp only
+  split
+  · exact coherent_store _ _ _ h
+  · exact h
+
+theorem durable_mergeOne_cases (d : Durable) (k : Bytes) (rt : Val) :
+    ((mDelta (get d.db k) rt).isZero = true ∧ d.mergeOne k rt = (d, none)) ∨
+    ((mDelta (get d.db k) rt).isZero ≠ true ∧
+      d.mergeOne k rt = (d.store k (mNew (get d.db k) rt), some (mDelta (get d.db k) rt))) := by
+  unfold Durable.mergeOne
+  simp only
+  rw [mergeOne_def]
+  by_cases hz : (mDelta (get d.db k) rt).isZero = true
+  · left; rw [if_pos hz]; exact ⟨hz, rfl⟩
+  · right; rw [if_neg hz]; simp only [get_set, if_true]; exact ⟨hz, trivial⟩
+
+theorem durable_merge_cons (d : Durable) (k : Bytes) (rt : Val) (rest : Map) :
+    d.merge ((k, rt) :: rest) =
+      (((d.mergeOne k rt).1.merge rest).1,
+        match (d.mergeOne k rt).2 with
+        | some v => (k, v) :: ((d.mergeOne k rt).1.merge rest).2
+        | none => ((d.mergeOne k rt).1.merge rest).2) := rfl
+
+theorem coherent_mergeOne (d : Durable) (k : Bytes) (rt : Val) (h : d.coherent) : (d.mergeOne k rt).1.coherent := by
+  rcases durable_mergeOne_cases d k rt with ⟨_, he⟩ | ⟨_, he⟩
+  · rw [he]; exact h
+  · rw [he]; exact coherent_store _ _ _ h
+
 theorem coherent_merge (d : Durable) (r : Map) (h : d.coherent) : (d.merge r).1.coherent := by
-  sorry
+  induction r generalizing d with
+  | nil => exact h
+  | cons e rest ih =>
+    obtain ⟨k0, rt⟩ := e
+    rw [durable_merge_cons]
+    exact ih _ (coherent_mergeOne d k0 rt h)
 
 /-- with a coherent cache, `Has` answers from the stored value -/
 theorem durable_has_truth (d : Durable) (k : Bytes) (h : d.coherent) :
     (d.has k).1 = (get d.db k).isAdded ∧ (d.has k).2.db = d.db := by
-  sorry
+  have hh : d.has k = ((d.fetch k).1.isAdded, (d.fetch k).2) := rfl
+  rw [hh]
+  simp only
+  unfold get
+  rcases fetch_cases d k with ⟨v, hc, hf⟩ | ⟨v, _, hdb, hf⟩ | ⟨_, hdb, hf⟩
+  · rw [hf, h k v hc]; exact ⟨rfl, rfl⟩
+  · rw [hf, hdb]; exact ⟨rfl, rfl⟩
+  · rw [hf, hdb]; exact ⟨rfl, rfl⟩
+
+theorem durable_mergeOne_refines (d : Durable) (k : Bytes) (rt : Val) :
+    (d.mergeOne k rt).1.db = (mergeOne d.db k rt).1 ∧ (d.mergeOne k rt).2 = (mergeOne d.db k rt).2 := by
+  rw [mergeOne_def]
+  rcases durable_mergeOne_cases d k rt with ⟨hz, he⟩ | ⟨hz, he⟩
+  · rw [he, if_pos hz]; exact ⟨rfl, rfl⟩
+  · rw [he, if_neg hz]; exact ⟨rfl, rfl⟩
+
+theorem durable_merge_refines (d : Durable) (r : Map) :
+    (d.merge r).1.db = (merge d.db r).1 ∧ (d.merge r).2 = (merge d.db r).2 := by
+  induction r generalizing d with
+  | nil => exact ⟨rfl, rfl⟩
+  | cons e rest ih =>
+    obtain ⟨k0, rt⟩ := e
+    rw [durable_merge_cons, merge_cons]
+    have h1 := durable_mergeOne_refines d k0 rt
+    have h2 := ih (d.mergeOne k0 rt).1
+    simp only
+    rw [h2.1, h2.2, h1.1, h1.2]
+    exact ⟨rfl, rfl⟩
 
 /-- the durable backend stores exactly what the volatile map would hold -/
 theorem durable_refines (d : Durable) (k : Bytes) (now : Int) (p : Bytes) (r : Map) :
     (d.add k now p).db = add d.db k now p ∧ (d.del k now).db = del d.db k now ∧
     (d.merge r).1.db = (merge d.db r).1 ∧ (d.merge r).2 = (merge d.db r).2 := by
-  sorry
-
+  refine ⟨?_, ?_, durable_merge_refines d r⟩
+  · unfold Durable.add add
+    simp only
+    split <;> rfl
+  · unfold Durable.del del
+    simp only
+    split <;> rfl
 end Emitter.Lww
